@@ -176,6 +176,9 @@ NATIVE_EXC = (TypeError, ValueError, IndexError, KeyError, AttributeError, ZeroD
               OverflowError, StopIteration, UnicodeError, OSError, ArithmeticError, AssertionError, NameError)
 
 
+EXECUTED = set()      # repo functions whose real body was executed symbolically in this process (evidence only)
+
+
 class Interp:
     def __init__(self, ctx, hooks=None, loops=None):
         self.ctx = ctx
@@ -325,6 +328,7 @@ class Interp:
 
     def call_repo(self, pyfn, args, kwargs):
         fi = FuncInfo.of(pyfn)
+        EXECUTED.add('%s:%s' % (getattr(pyfn, '__module__', '?'), getattr(pyfn, '__qualname__', pyfn.__name__)))
         env = self.bind(fi.node, args, kwargs, fi.globals, pyfn.__name__)
         fr = Frame(fi.name, env, fi.globals, fi)
         return self.run_frame(fi.node, fr, fi.isgen)
